@@ -206,7 +206,7 @@ def build_pair_package(rng, gated: set):
             mname = f"mod_{mi}"
         mod_names.append(mname)
     for mi, mname in enumerate(mod_names):
-        lines = ["from typing import Generic, TypeVar\nfrom enum import Enum\n\n"]
+        lines = ["from typing import Callable, Generic, TypeVar\nfrom enum import Enum\n\n"]
         tv = rng.choice(["T", "T_co", "K_t", "ValueT"])
         lines.append(f'{tv} = TypeVar("{tv}")\n\n\n')
         stable_cls = f"Stable{mi}"
@@ -220,10 +220,11 @@ def build_pair_package(rng, gated: set):
                 pn, psid = ns.fresh()
                 pn = pn.strip("_") if pn.startswith("__") else pn
                 shapes_used.add("param:" + psid)
-                params.append(f"{pn}: {rng.choice(['int', 'str', stable_cls, 'list[int]', tv])}" + rng.choice(["", "", " = None"]).replace(" = None", "") )
+                params.append(f"{pn}: {rng.choice(['int', 'str', stable_cls, 'list[int]', tv, 'Callable[[int, str], tuple[int, str]]', 'Callable[[str], int]'])}" + rng.choice(["", "", " = None"]).replace(" = None", "") )
             ret = rng.choice(["int", "None", stable_cls, "tuple[int, str]", "Callable_", tv if any(tv in p for p in params) else "str"])
             if ret == "Callable_":
-                ret = "int"
+                # the names a callable type gets for its parameters and results (param_1, result_1, ...) are identifiers too
+                ret = rng.choice(["Callable[[int], tuple[int, str, float]]", "Callable[[int, int], str]", "Callable[[], None]", "list[Callable[[int], tuple[int, int]]]"])
             lines.append(f"def {fname}({', '.join(params)}) -> {ret}: ...\n\n\n")
         # classes
         for _ in range(rng.randint(2, 4)):
@@ -355,10 +356,11 @@ def _canon_type(t: sds.Type | None, tparams_conv: set, side_off: bool):
         return ("l", tuple(x for _, x in t.literals))
     if t.kind == "unknown":
         return ("?",)
+    conv = lambda n: nm.names_ref(n) if (side_off and n and nm.defined(n)) else n  # noqa: E731
     return (
         "c",
-        tuple(_canon_type(p.type, tparams_conv, side_off) for p in t.params),
-        tuple(_canon_type(r.type, tparams_conv, side_off) for r in t.results),
+        tuple((conv(p.name), _canon_type(p.type, tparams_conv, side_off)) for p in t.params),
+        tuple((conv(r.name), _canon_type(r.type, tparams_conv, side_off)) for r in t.results),
     )
 
 
